@@ -27,6 +27,12 @@ def chains(tier):
             for gap in (None, "30min", "90min", "1h"):
                 for onstart in (False, True):
                     yield {"kind": "ms", "L": L, "m": m, "gap": gap, "onstart": onstart}
+                # the milestone is IMPLICIT (a task with neither effort nor the milestone keyword), also with an allocation; and a
+                # predecessor that ends exactly with the working day (the bound is an instant at which nobody works)
+                for mk in ("implicit", "implicit-alloc"):
+                    yield {"kind": "ms", "L": L, "m": m, "gap": gap, "onstart": False, "mk": mk}
+                for mk in ("explicit", "implicit", "implicit-alloc"):
+                    yield {"kind": "ms", "L": L, "m": 450, "gap": gap, "onstart": False, "mk": mk}
                 # a milestone behind a DATED container: the bound is the container's real span (roll-up of its children),
                 # not the dates typed on the container
                 for dated in ("end-late", "start-early", "both"):
@@ -59,10 +65,11 @@ def to_spec(it):
             d["gap"] = it["gap"]
         if it["onstart"]:
             d["onstart"] = True
-        return {"res_min": L if L != 60 else None, "resources": [{"id": "r1"}],
+        return {"res_min": L if L != 60 else None, "resources": [{"id": "r1"}, {"id": "r2"}],
                 "tasks": [{"id": "w", "effort": 30, "alloc": ["r1"]},
                           {"id": "a", "effort": it["m"], "alloc": ["r1"], "deps": ["w"]},
-                          {"id": "m", "milestone": True, "deps": [d]},
+                          {"explicit": {"id": "m", "milestone": True, "deps": [d]}, "implicit": {"id": "m", "deps": [d]},
+                           "implicit-alloc": {"id": "m", "alloc": ["r2"], "deps": [d]}}[it.get("mk", "explicit")],
                           {"id": "after", "effort": 30, "alloc": ["r1"], "deps": ["m"]}]}
     if k == "msc":
         L = it["L"]
